@@ -13,3 +13,9 @@ CHECKS['C16'] = (_SYMX + '; inductive step over an arbitrary invariant-satisfyin
 CHECKS['C05'] = (_SYMX + '; initial-state assertions, container-style / positional / wrapper equivalence under replayed draws',
                  'every simulator and wrapper, on every configuration of the bound and every path, starts from exactly the requested state; rho requests int(round(N*rho)) nodes (z3 over symbolic rho); conflicting arguments raise EoNError',
                  'floats as reals; graphs <= 3 (4) nodes; strictly positive delays/durations (zero values are tie cases covered by C11)', 'DESIGN.md 6/C05')
+CHECKS['C03'] = (_SYMX + '; probability masses extracted from branch conditions, law identities decided by z3',
+                 'bounded symbolic model checking of Gillespie_simple_contagion against the CTMC derived from the specification: per reachable state clock rate = total rate, every positive-probability event is an enabled transition with mass rate/total, none missing, one node changes per row',
+                 'floats as reals; 5 (7) specifications, graphs and digraphs on <= 3 nodes, <= 3 (4) events; weighted candidate sets via their abstraction (C16)', 'DESIGN.md 6/C03')
+CHECKS['C11'] = (_SYMX + '; first-passage-percolation characterisation proved per path against a declarative reference',
+                 'for every delay/duration table (symbolic, ties allowed) and every order in which the queue meets simultaneous events, infection times are shortest usable path lengths, recoveries follow durations, infectors lie on shortest paths, nothing at/after tmax; percolation builders and get_infected_nodes match their rule; myQueue order',
+                 'floats as reals; graphs <= 3 (4) nodes; L1', 'DESIGN.md 6/C11')
